@@ -25,6 +25,14 @@ def dy(r, lo=-4, hi=4, den=(1, 2, 4), nonzero=False):
             return q
 
 
+def log_grid(r, n=None):
+    """log-spaced grid (tolerance stream): positive start, moderate ratio"""
+    n = n or r.choice([3, 4, 5, 6])
+    a = r.choice([Fr(1, 2), Fr(1), Fr(2)])
+    b = a * r.choice([4, 8, 16])
+    return {"k": "log", "a": str(a), "b": str(b), "n": n}
+
+
 def lin_grid(r, n=None):
     n = n or r.choice(LIN_SIZES[:3])
     step = r.choice([Fr(1, 2), Fr(1), Fr(2)])
@@ -77,6 +85,8 @@ def gen_model(r, *, budget=6000, max_T=4, force=None):
     if "stoch3" in force:
         n_ds = 3
         n_cs = min(n_cs, 1)
+    if "log" in force:
+        n_cs = max(n_cs, 1)
     names = NAMES[:]
     r.shuffle(names)
     names = iter(names)
@@ -124,12 +134,20 @@ def gen_model(r, *, budget=6000, max_T=4, force=None):
     it = {k: iter(v) for k, v in sz.items()}
     for k in order:
         nm = next(names)
-        states.append([nm, lin_grid(r, next(it["cs"])) if k == "cs" else {"k": "disc", "n": next(it["ds"])}])
+        if k == "cs":
+            n_ = next(it["cs"])
+            states.append([nm, log_grid(r) if ("log" in force and r.random() < 0.7) else lin_grid(r, n_)])
+        else:
+            states.append([nm, {"k": "disc", "n": next(it["ds"])}])
     order = ["cc"] * n_cc + ["dc"] * n_dc
     r.shuffle(order)
     for k in order:
         nm = next(names)
-        choices.append([nm, lin_grid(r, next(it["cc"])) if k == "cc" else {"k": "disc", "n": next(it["dc"])}])
+        if k == "cc":
+            n_ = next(it["cc"])
+            choices.append([nm, log_grid(r) if ("log" in force and r.random() < 0.4) else lin_grid(r, n_)])
+        else:
+            choices.append([nm, {"k": "disc", "n": next(it["dc"])}])
     G = dict(states + choices)
     snames = [k for k, _ in states]
     cnames = [k for k, _ in choices]
@@ -276,6 +294,9 @@ def gen_model(r, *, budget=6000, max_T=4, force=None):
             if r.random() < 0.3 and not noperiod:
                 args.append("_period")
                 body = ["add", body, ["mul", N(Fr(1, 2)), V("_period")]]
+            if g["k"] == "log":
+                # a log grid has no values outside (0, inf): keep the next state inside the grid range
+                body = ["min", ["max", body, N(Fr(g["a"]))], N(Fr(g["b"]))]
             r.shuffle(args)
             funcs.append(_fn(f"next_{s}", args + ([pn] if pn else []), body))
         else:
@@ -428,9 +449,11 @@ def gen_initial_states(r, mj, n_agents, *, on_grid=False, meta=None):
             out[s] = [Fr(r.randint(lo, g["n"] - 1)) for _ in range(n_agents)]
         else:
             a, b, n = Fr(g["a"]), Fr(g["b"]), g["n"]
-            if on_grid:
+            if on_grid and g["k"] != "log":
                 pts = grid_points(g)
                 out[s] = [r.choice(pts) for _ in range(n_agents)]
+            elif g["k"] == "log":
+                out[s] = [a + (b - a) * Fr(r.randint(0, 8), 8) for _ in range(n_agents)]
             else:
                 out[s] = [a + (b - a) * Fr(r.randint(-1, 9), 8) for _ in range(n_agents)]
     return out
@@ -472,7 +495,23 @@ def strip(mj):
     """model JSON as sent to the driver (harness-only fields removed)"""
     return {
         "n_periods": mj["n_periods"],
-        "states": mj["states"],
-        "choices": mj["choices"],
+        "states": [[k, _driver_grid(g)] for k, g in mj["states"]],
+        "choices": [[k, _driver_grid(g)] for k, g in mj["choices"]],
         "functions": [{k: f[k] for k in ("name", "args", "body", "stochastic")} for f in mj["functions"]],
     }
+
+
+def _driver_grid(g):
+    """log grids reach the exact model as the nodes the implementation materialised (tabulated grid)"""
+    if g["k"] != "log":
+        return {k: v for k, v in g.items() if k != "float_codes"}
+    from common import fr, impl
+    from dsl import mkgrid
+    import numpy as np
+
+    impl()  # x64 must be configured before the grid is materialised
+    return {"k": "tab", "nodes": [fr(float(x)) for x in np.asarray(mkgrid(g).to_jax())]}
+
+
+def has_log(mj) -> bool:
+    return any(g["k"] == "log" for _, g in mj["states"] + mj["choices"])
